@@ -344,12 +344,16 @@ CHECKS["C18"] = {
             "messages); oracle: no panic in any goroutine (the process survives), the command returns, requests still end. Non-trivial = at least two operations touched the same service. Distinct by plan hash.",
     "layers": [L("TestVF_C18", 150, 2500, race_always=True, crash_is_violation=True, qtimeout=150, ttimeout=1800, qenv={"GORACE": "halt_on_error=0"}, tenv={"GORACE": "halt_on_error=0"}),
                L("TestVF_C18_Hostile", 150, 2000, crash_is_violation=True, qtimeout=240, ttimeout=1800),
-               L("TestVF_C18_LockStress", 5, 40, qshards=6, crash_is_violation=True, qtimeout=90, ttimeout=900)],
+               L("TestVF_C18_LockStress", 5, 40, qshards=6, crash_is_violation=True, qtimeout=90, ttimeout=900),
+               L("TestVF_C18_ProbeVsCommand", 300, 3000, crash_is_violation=True, qtimeout=90, ttimeout=900)],
     "rule_extra": " TestVF_C18_LockStress: 1-3 goroutines repeat pause / resume / stop on a service 200-800 times as fast as they can while "
                   "1-4 others keep setting / stopping the split, listing, redeploying and routing requests (no hooks, no virtual-time waits); "
                   "the case must end and leave a working proxy: a hang shows in the deadline's goroutine dump as goroutines blocked on sync "
                   "locks inside kamal-proxy frames (windows of a few dozen nanoseconds, e.g. a recursive read lock a writer slips into, "
-                  "need this many repetitions).",
+                  "need this many repetitions). TestVF_C18_ProbeVsCommand: a probe result that flips a target's health is held at the hook "
+                  "target.health-changed (state set, load balancer not yet told) while 1-3 commands that dispose, drain or re-read that target "
+                  "run (remove, redeploy, rollout deploy / stop, pause, stop, resume, list, a request), then the probe goes on; everything must "
+                  "end, nothing may panic, the proxy must still deploy afterwards.",
     "technique": "concurrency stress driven by property-based testing (rapid) under the Go race detector: generated operation lists on real goroutines, no gates",
     "level_text": "Bounded random exploration of overlapping operations; the race detector reports only pairs of accesses that were actually executed, so absence is never established.",
     "level_note": "Schedule is the Go scheduler's (not controlled, not replayable exactly); a replay re-runs the same operation lists up to 20 times.",
@@ -412,3 +416,9 @@ CHECKS["C15"]["rule"] += (" Clients reach the proxy through its own Server.start
 CHECKS["C16"]["rule"] += (" Final state (and the restarted proxy): real TLS handshakes against the proxy's own HTTPS server on the in-memory network for every SNI "
                           "name whose root service is not on automatic TLS - a bound name gets exactly the deployed certificate and a request over the "
                           "connection is forwarded, not redirected; every other name, and a hello without a name, fails the handshake.")
+
+CHECKS["C06"]["layers"].append(L("TestVF_C06_SaveFault", 300, 4000))
+CHECKS["C06"]["rule"] += (" Save-fault layer (TestVF_C06_SaveFault): after a generated history the state file's place is made unusable (directory removed, a "
+                          "directory on the temporary file's name, a directory where the state file belongs) and one more model-valid command is issued; "
+                          "oracle: what the command reports is true - an error means `list` and the routing matrix are as before it, success means they are "
+                          "as the model says after it. Every case of that layer is non-trivial.")
